@@ -71,6 +71,15 @@ CLAIMED["C12"] = dict(
          "4 objectives and NaN objective values outside",
     design="§3 C12")
 
+CLAIMED["C17"] = dict(
+    text="Bounded symbolic execution of the real IntersectionSearchSpace/_calculate and _GroupDecomposedSearchSpace code against a real "
+         "Study on InMemoryStorage whose history evolves over epochs (parameter presence, finishing order and state, appended RUNNING/WAITING "
+         "trials, gained parameters, call points are forks; the distribution of a name is FloatDistribution(0,h) with h a z3 real so that "
+         "equal/different distributions are decided by the solver). After every call: incremental == from-scratch definition == "
+         "intersection_search_space, never grows, groups are a partition compatible with every qualifying trial.",
+    note="<=3 initial trials (+1 appended), 2 names, <=3 epochs: small-scope claim, the cursor logic only compares trial numbers",
+    design="§3 C17")
+
 NOT_APPLICABLE = {
     "C03": "thread/process pre-emption at source-line granularity inside the storage layer cannot be made a symbolic variable over the "
            "real Python code by a solver-based executor; its atomic-step obligations are discharged under C01/C04/C06/C07",
